@@ -1133,7 +1133,7 @@ func checkCodabarMinLength(c *Ctx, r *Report) {
 
 // S-C128RT: Code 128 writer -> reader on the code level
 func checkCode128RoundTrip(c *Ctx, r *Report) {
-	r.Rule("S-C128RT", "Code 128 on the level of symbol values: the writer's encodeWithHints, folded from source (code-set choice, start / switch symbols, value computation, checksum), emits for a content a sequence of symbol values; the reader's DecodeRow, folded from source with the pattern matcher replaced by exactly that sequence (start pattern and decodeCode scripted, quiet-zone tests answered true), passes its checksum test and returns exactly the content - for every character 0..127 alone, after and before a lower-case, a control-character and a four-digit context, for digit strings of length 1..8, and under each forced code set for the characters it admits", 1)
+	r.Rule("S-C128RT", "Code 128 on the level of symbol values: the writer's encodeWithHints, folded from source (code-set choice, start / switch symbols, value computation, checksum), emits for a content a sequence of symbol values; the reader's DecodeRow, folded from source with the pattern matcher replaced by exactly that sequence (start pattern and decodeCode scripted, quiet-zone tests answered true), passes its checksum test and returns exactly the content - for every character 0..127 alone, after and before a lower-case, a control-character and a four-digit context, for digit strings of length 1..8, and under each forced code set (whatever the writer accepts there reads back, and no content makes the fold leave the contents: odd digit counts, FNC1 between digits)", 1)
 	wfd, wp := c.funcDeclOf("oned", "code128Encoder.encodeWithHints")
 	rfd, rp := c.funcDeclOf("oned", "code128Reader.DecodeRow")
 	key := "oned Code 128 symbol values"
@@ -1185,6 +1185,10 @@ func checkCode128RoundTrip(c *Ctx, r *Report) {
 	type stop struct{ text string }
 	bad := ""
 	folds := 0
+	forceKey := ""
+	if k, ok := constValIn(c, "", "EncodeHintType_FORCE_CODE_SET"); ok {
+		forceKey = fmt.Sprint(k)
+	}
 	try := func(content, force string) {
 		if bad != "" {
 			return
@@ -1212,23 +1216,25 @@ func checkCode128RoundTrip(c *Ctx, r *Report) {
 			return errCtorHook(rr, call, callee)
 		}
 		if force != "" {
-			// the FORCE_CODE_SET hint: answered by a hook on the map read
-			wh.idxHook = func(rr *rpf, ix *ast.IndexExpr) (*Val, bool) { return nil, false }
+			hintsVal = &Val{K: VStruct, Fields: map[string]*Val{forceKey: vstr(force)}}
 		}
-		_ = hintsVal
-		var res []*Val
-		var err error
-		if force == "" {
-			res, err = c.rpfCall(wfd, wp, []*Val{vstr(content), {K: VNil}}, wh)
-		} else {
-			return // forced sets are folded through code128ForcedFold below
-		}
+		res, err := c.rpfCall(wfd, wp, []*Val{vstr(content), hintsVal}, wh)
 		what := fmt.Sprintf("content %q", content)
+		if force != "" {
+			what += " with FORCE_CODE_SET " + force
+		}
 		if err != nil {
+			if strings.Contains(err.Error(), "out of range") {
+				bad = what + ": the writer indexes its contents out of range - a panic instead of an error (" + err.Error() + ")"
+				return
+			}
 			bad = "?writer, " + what + ": " + err.Error()
 			return
 		}
 		if len(res) != 2 || res[1].K != VNil {
+			if force != "" {
+				return // a forced set may refuse a content; what it accepts must read back
+			}
 			bad = what + ": the writer refuses it"
 			return
 		}
@@ -1326,12 +1332,25 @@ func checkCode128RoundTrip(c *Ctx, r *Report) {
 			bad = fmt.Sprintf("%s: the writer draws the symbol values %v and the reader rejects them (checksum / format)", what, codes)
 			return
 		}
-		if got != content {
+		want := strings.ReplaceAll(content, "\u00f1", "") // FNC1 is a function symbol, not text (no GS1 hint here)
+		if got != want {
 			bad = fmt.Sprintf("%s: the writer draws the symbol values %v and the reader returns %q", what, codes, got)
 		}
 	}
 	for _, s := range contents {
 		try(s, "")
+	}
+	// forced code sets: whatever the writer accepts under the hint reads back; nothing makes it leave its contents
+	if forceKey != "" {
+		for ch := 0; ch < 128; ch++ {
+			try("A"+string(rune(ch)), "A")
+			try("a"+string(rune(ch)), "B")
+		}
+		for _, s := range []string{"12", "1234", "123", "1", "12345", "\u00f112", "\u00f1123", "12\u00f134", "1\u00f123", "12\u00f13", "\u00f1", "\u00f1\u00f112"} {
+			try(s, "C")
+		}
+	} else {
+		bad = "?EncodeHintType_FORCE_CODE_SET is not a constant"
 	}
 	r.Extra("S-C128RT contents", folds)
 	reportFold(r, c, "S-C128RT", key, wfd.Pos(), bad)
